@@ -4,6 +4,7 @@
   The bounds hold *because* the guards are in the source (`Gen.*` facts, read on every run).
 -/
 import Bita.Model.Readers
+import Bita.Model.Clone
 
 namespace Bita.Proofs
 open Bita
@@ -124,5 +125,60 @@ body frames of any sizes, an endless body -, `HttpRangeRequest::single_fail` buf
 theorem http_read_at_take_bounded (size : Nat) (frames : List Nat) :
     httpSingleTake size 0 frames ≤ size + maxFrame frames :=
   httpSingleTake_bounded size frames 0 (Or.inr rfl)
+
+/-- What the reader may assume of its decompressor: never more than the declared size. -/
+def DecompBounded (decomp : Nat → Bytes → Nat → Option Bytes) : Prop :=
+  ∀ algo stored declared out, decomp algo stored declared = some out → out.length ≤ declared
+
+/-- The decompressor of the code meets it for *any* codec, because the output limit is in the source. -/
+theorem limitedDecomp_bounded (raw : Nat → Bytes → Option Bytes) : DecompBounded (limitedDecomp raw) := by
+  intro algo stored declared out h
+  unfold limitedDecomp at h
+  have hfact : Gen.decompressOutputLimited = true := by decide
+  cases hr : raw algo stored with
+  | none => rw [hr] at h; cases h
+  | some o =>
+    rw [hr] at h
+    simp only [Option.bind_some] at h
+    by_cases hlt : declared < o.length
+    · rw [if_pos ⟨hfact, hlt⟩] at h; cases h
+    · rw [if_neg (fun hh => hlt hh.2)] at h
+      cases h
+      omega
+
+/-- **Decoded chunks follow the declared sizes.**  For any descriptor of any (untrusted) archive, any
+stored bytes and any codec behind the limited decompressor: a chunk that `decodeChunk` hands on is
+no longer than the larger of the descriptor's declared source size and the stored bytes
+themselves - a compressed stream cannot choose how much memory the reader uses. -/
+theorem decodeChunk_bounded (H : Bytes → Bytes) (decomp : Nat → Bytes → Nat → Option Bytes)
+    (hb : DecompBounded decomp) (compr : Compr) (d : Descr) (stored chunk : Bytes)
+    (h : decodeChunk H decomp compr d stored = some chunk) :
+    chunk.length ≤ max d.sourceSize stored.length := by
+  unfold decodeChunk at h
+  dsimp only at h
+  split at h
+  · simp only [Option.bind_some] at h
+    split at h
+    · cases h; omega
+    · cases h
+  · cases compr with
+    | none =>
+      simp only [Option.bind_some] at h
+      split at h
+      · cases h; omega
+      · cases h
+    | some c =>
+      obtain ⟨algo, lvl⟩ := c
+      dsimp only at h
+      cases hd : decomp algo stored d.sourceSize with
+      | none => rw [hd] at h; cases h
+      | some out =>
+        rw [hd] at h
+        simp only [Option.bind_some] at h
+        split at h
+        · cases h
+          have := hb algo stored d.sourceSize _ hd
+          omega
+        · cases h
 
 end Bita.Proofs
